@@ -8,7 +8,7 @@
    parameters:  [pi], [sq2pi] (= sqrt(2 pi)) and [cispi a] (= exp(i pi a)).
    At Q they are instantiated by C18/CisQ.v, at R by the true functions. *)
 From Coq Require Import ZArith QArith List Bool Arith.
-From Verif Require Import Base.Num Base.Vec Lib.Axis.
+From Verif Require Import Base.Num Base.Vec Lib.Axis Gen.FtFormulas.
 Import ListNotations.
 Local Open Scope num_scope.
 
@@ -33,7 +33,7 @@ Inductive status := SOk | SValueErr | STypeErr | SOtherErr.
 Section Model.
 Context {T : Type} `{Num T}.
 
-Definition of_nat (n : nat) : T := of_Z (Z.of_nat n).
+Definition of_nat (n : nat) : T := g_of_nat n.
 
 (* ------------------------------------------------------------------ *)
 (* complex numbers as pairs *)
@@ -67,17 +67,12 @@ Definition recip_axis (pi : T) (a : axis) (tr : option bool) (half : bool) : axi
   match tr with
   | None => a
   | Some sh =>
+      (* formulas REGENERATED from reciprocal_grid: Gen/FtFormulas.v *)
       let s := stride1 a in
       let n := a_n a in
-      let rmin := if sh then - (pi / s) else (- none_ + none_ / of_nat n) * pi / s in
-      let rmax := if sh then - rmin - of_Z 2 * pi / (s * of_nat n) else - rmin in
-      if half then
-        let odd := Nat.odd n in
-        let hr := pi / (of_nat n * s) in
-        mk_axis rmin
-                (if odd && sh then - hr else if negb odd && negb sh then hr else nzero)
-                (n / 2 + 1)
-      else mk_axis rmin rmax n
+      let rmin := rg_rmin pi s n sh in
+      if half then mk_axis rmin (rg_half_rmax pi s n sh) (rg_half_n n)
+      else mk_axis rmin (rg_rmax pi s rmin n sh) n
   end.
 
 (* which flag an axis gets from (axes, shift_list):  shifted[axes] = shift_list *)
@@ -107,13 +102,12 @@ Definition recip_grid (pi : T) (g : list axis) (axes : list nat) (shifts : list 
 Definition real_n (rn : nat) (half : option bool) : nat :=
   match half with
   | None => rn
-  | Some false => (2 * rn - 2)%nat
-  | Some true => (2 * rn - 1)%nat
+  | Some odd => rs_n rn odd          (* regenerated parity rules 2 rn - 2 / 2 rn - 1 *)
   end.
 Definition real_axis (pi : T) (r : axis) (x0 : T) (tr : bool) (half : option bool) : axis :=
   let n := real_n (a_n r) half in
-  let st := if tr then of_Z 2 * pi / (of_nat n * stride r) else stride r in
-  mk_axis x0 (x0 + of_nat (n - 1) * st) n.
+  let st := if tr then rs_stride pi (stride r) n else stride r in
+  mk_axis x0 (rs_max x0 st n) n.
 (* the code divides by irshape*rstride: inf/NaN limits make uniform_grid raise ValueError *)
 Definition real_axis_ok (r : axis) (tr : bool) (half : option bool) : bool :=
   negb tr || negb ((of_nat (real_n (a_n r) half) * stride r) =? nzero).
@@ -144,47 +138,39 @@ Variables (pi sq2pi : T) (cispi : T -> cx).
 (* dft_preprocess_data._onedim_arr: (-1)^j on a shifted axis,
    exp(-imag*pi*(1-1/n)*j) on an unshifted one *)
 Definition pre_fac (n : nat) (sh : bool) (sg : T) (j : nat) : cx :=
-  if sh then (if Nat.even j then c1 else cscal (- none_) c1)
-  else cispi (- sg * (none_ - none_ / of_nat n) * of_nat j).
+  if sh then (if Nat.even j then of_re pre_shift_even else of_re pre_shift_odd)
+  else cispi (pre_arg sg n j).
 
 (* np.linspace(lo, hi, num)[k] *)
 Definition linspace (lo hi : T) (num k : nat) : T :=
   if (num <=? 1)%nat then lo else lo + of_nat k * ((hi - lo) / of_nat (num - 1)).
 
 (* dft_postprocess_data: normalised frequencies fmin..fmax (len_dft points) *)
-Definition fmin_of (n : nat) (sh : bool) : T :=
-  if sh then - nhalf else - nhalf + none_ / (of_Z 2 * of_nat n).
-Definition fmax_of (n rn : nat) (sh : bool) : T :=
-  let odd := Nat.odd n in
-  if (rn <? n)%nat then
-    (if sh && odd then - (none_ / (of_Z 2 * of_nat n))
-     else if negb sh && negb odd then none_ / (of_Z 2 * of_nat n)
-     else nzero)
-  else if sh then nhalf - none_ / of_nat n
-  else nhalf - none_ / (of_Z 2 * of_nat n).
+Definition fmin_of (n : nat) (sh : bool) : T := pp_fmin n sh.          (* regenerated *)
+Definition fmax_of (n rn : nat) (sh : bool) : T := pp_fmax n rn sh.   (* regenerated *)
 Definition freq (n rn : nat) (sh : bool) (k : nat) : T :=
   linspace (fmin_of n sh) (fmax_of n rn sh) rn k.
 
 (* np.sinc(f) = sin(pi f)/(pi f), 1 at 0;  _interp_kernel_ft(.., 'nearest') * stride *)
 Definition sinc (f : T) : T :=
   if f =? nzero then none_ else snd (cispi f) / (pi * f).
-Definition kernel (s f : T) : T := sinc f / sq2pi * s.
+Definition kernel (s f : T) : T := pp_kernel (sinc f) sq2pi s false.
 
 (* one entry of the 1-d post-processing array:
    exp(imag x0 xi_k) times (or over) the kernel;   xi_k/pi = coordinate of the reciprocal axis built with pi := 1 *)
 Definition post_fac (real_ax : axis) (sh : bool) (half : bool) (sg : T) (divide : bool) (k : nat) : cx :=
   let n := a_n real_ax in
   let r1 := recip_axis none_ real_ax (Some sh) half in
-  let ph := cispi (sg * a_min real_ax * coord r1 k) in
+  let ph := cispi (pp_arg sg (a_min real_ax) (coord r1 k)) in
   let ker := kernel (stride real_ax) (freq n (a_n r1) sh k) in
   if divide then cdivr ph ker else cscal ker ph.
 
 (* interp='linear': the kernel is sinc^2 (FourierTransform itself always uses 'nearest') *)
-Definition kernel_lin (s f : T) : T := sinc f * sinc f / sq2pi * s.
+Definition kernel_lin (s f : T) : T := pp_kernel (sinc f) sq2pi s true.
 Definition post_fac_lin (real_ax : axis) (sh : bool) (half : bool) (sg : T) (divide : bool) (k : nat) : cx :=
   let n := a_n real_ax in
   let r1 := recip_axis none_ real_ax (Some sh) half in
-  let ph := cispi (sg * a_min real_ax * coord r1 k) in
+  let ph := cispi (pp_arg sg (a_min real_ax) (coord r1 k)) in
   let ker := kernel_lin (stride real_ax) (freq n (a_n r1) sh k) in
   if divide then cdivr ph ker else cscal ker ph.
 
@@ -254,11 +240,27 @@ Definition irfftn (shape : list nat) (axes : list nat) (y : list cx) : list cx :
   along_ax (hc_shape shape axes) l n (irfft1 n)
            (idftn none_ (hc_shape shape axes) (removelast axes) y).
 
+(* the np.fft routine named by the REGENERATED dispatch (Gen/FtFormulas.v: *_call) *)
+Definition run_call (c : np_call) (shape axes : list nat) (x : list cx) : list cx :=
+  match c with
+  | Rfftn => rfftn shape axes x
+  | Fftn => dftn (- none_) shape axes x
+  | IfftnTimesN => dftn none_ shape axes x
+  | IrfftnS => irfftn shape axes x
+  | Ifftn => idftn none_ shape axes x
+  | FftnOverN => idftn (- none_) shape axes x
+  end.
+Definition sign_minus (sg : T) : bool := sg <? nzero.
 (* DiscreteFourierTransform._call_numpy / DiscreteFourierTransformInverse._call_numpy *)
 Definition dft_forward (sg : T) (hc : bool) (shape axes : list _) (x : list cx) : list cx :=
-  if hc then rfftn shape axes x else dftn sg shape axes x.
+  run_call (dft_fwd_call hc (sign_minus sg)) shape axes x.
 Definition dft_inverse (sg : T) (hc : bool) (shape axes : list _) (y : list cx) : list cx :=
-  if hc then irfftn shape axes y else idftn sg shape axes y.
+  run_call (dft_inv_call hc (sign_minus sg)) shape axes y.
+(* the transform step of FourierTransform._call_numpy / FourierTransformInverse._call_numpy *)
+Definition ftc_forward (sg : T) (hc : bool) (shape axes : list _) (x : list cx) : list cx :=
+  run_call (ft_fwd_call hc (sign_minus sg)) shape axes x.
+Definition ftc_inverse (sg : T) (hc : bool) (shape axes : list _) (y : list cx) : list cx :=
+  run_call (ft_inv_call hc (sign_minus sg)) shape axes y.
 
 (* fast_1d_tensor_mult(out, onedim_arrs, axes): out[i] *= prod_a arr_a[index of i along a] *)
 Fixpoint tensor_fac (shape : list nat) (facs : list (nat * (nat -> cx))) (i : nat) : cx :=
@@ -303,7 +305,7 @@ Fixpoint post_facs (g : list axis) (axes : list nat) (shifts : list bool) (lasta
 Definition ft_forward (c : ftcfg) (x : list cx) : list cx :=
   let sh := f_shape c in
   let pre := tensor_mult sh (pre_facs (f_grid c) (f_axes c) (f_shifts c) (f_sg c)) x in
-  let y := dft_forward (f_sg c) (f_hc c) sh (f_axes c) pre in
+  let y := ftc_forward (f_sg c) (f_hc c) sh (f_axes c) pre in
   tensor_mult (f_rshape c)
               (post_facs (f_grid c) (f_axes c) (f_shifts c) (last_axis (f_axes c)) (f_hc c) (f_sg c) false) y.
 
@@ -314,7 +316,7 @@ Definition ft_inverse (c : ftcfg) (real_range : bool) (y : list cx) : list cx :=
   let sh := f_shape c in
   let pre := tensor_mult (f_rshape c)
                (post_facs (f_grid c) (f_axes c) (f_shifts c) (last_axis (f_axes c)) (f_hc c) (f_sg c) true) y in
-  let x := dft_inverse (f_sg c) (f_hc c) sh (f_axes c) pre in
+  let x := ftc_inverse (f_sg c) (f_hc c) sh (f_axes c) pre in
   let r := tensor_mult sh (pre_facs (f_grid c) (f_axes c) (f_shifts c) (f_sg c)) x in
   if real_range then map cre r else r.
 End Phases.
@@ -327,25 +329,13 @@ Definition all_true (l : list bool) : bool := forallb (fun b => b) l.
 Definition dft_init_status (shape axes : list nat) (hc : bool) (default_range : bool) : status :=
   let rshape := if hc then hc_shape shape axes else shape in
   if default_range && existsb (fun n => (n =? 1)%nat) rshape then SValueErr else SOk.
-(* VARIANT SWITCHES.  The status functions below describe recorded defects of the current code
-   (findings/C18.json).  Each takes a boolean v_... = "the defect is present", measured by the
-   harness on the finding's own repro input on every run, so that neither the defect nor its
-   later repair breaks the correspondence.  The property theorems are proved for the repaired
-   behaviour; Props.v states what the defective variants do.
-
-   DiscreteFourierTransformInverse._call as the CURRENT code behaves:
-   - onto a real space without halfcomplex the pyfftw back-end rejects the real output array
-     (ValueError from _pyfftw_check_args for sign '-', from pyfftw.FFTW for sign '+' unless the
-     last axis has <= 2 points, where FFTW silently runs a c2r transform = real part of the
-     complex inverse); the numpy back-end stores the real part;
-   - halfcomplex with the numpy back-end calls irfftn without `s`, so an odd last axis
-     comes back one short and the assignment raises ValueError *)
-Definition dft_inverse_status (v_real_pyfftw_raises v_hc_odd_numpy_raises : bool)
-           (pyfftw real_dom hc : bool) (sg_minus : bool) (shape axes : list nat) : status :=
-  let nl := nth (last_axis axes) shape 0%nat in
-  if v_real_pyfftw_raises && real_dom && negb hc && pyfftw && (sg_minus || (3 <=? nl)%nat) then SValueErr
-  else if v_hc_odd_numpy_raises && real_dom && hc && negb pyfftw && Nat.odd nl then SValueErr
-  else SOk.
+(* VARIANT SWITCH.  One recorded defect of the current code is still open
+   (findings/C18.json, ft-halfcomplex-unshifted-axis); ft_init_status takes a boolean
+   v_hc_needs_all_shifts = "the constructor already rejects it", measured by the harness on the
+   finding's repro input on every run, so that neither the defect nor its later repair breaks the
+   correspondence.  The defects of the inverse DFT / real inverse FT recorded earlier were repaired
+   in /repo (021ba38, cc7c4de, 22e4f07, a36e1cd, 1202362, b0c1ccf): every call of
+   DiscreteFourierTransformInverse now succeeds, so it has no status function any more. *)
 (* FourierTransformBase.__init__ *)
 Definition ft_init_status (v_hc_needs_all_shifts : bool) (g : list axis) (axes : list nat)
            (shifts : list bool) (hc : bool) (sg_fwd_plus : bool) : status :=
@@ -359,9 +349,8 @@ Definition ft_init_status (v_hc_needs_all_shifts : bool) (g : list axis) (axes :
 Definition ft_forward_status (pyfftw real_dom hc : bool) (shifts : list bool) : status :=
   if pyfftw && real_dom && hc && negb (all_true shifts) then SOtherErr   (* assert is_real_dtype(preproc) *)
   else SOk.
-Definition ft_inverse_status (v_real_unshifted_pyfftw_raises : bool) (pyfftw real_dom hc : bool)
-           (shifts : list bool) : status :=
-  if real_dom && negb (all_true shifts) && (hc || (pyfftw && v_real_unshifted_pyfftw_raises))
-  then STypeErr  (* complex factor into a real array *)
+Definition ft_inverse_status (real_dom hc : bool) (shifts : list bool) : status :=
+  if real_dom && negb (all_true shifts) && hc
+  then STypeErr  (* half-complex with an unshifted axis: complex factor into the real c2r output *)
   else SOk.
 End Model.
